@@ -310,8 +310,12 @@ fn run_case(sh: &mut Shard, case: u64, rng: &mut Rng) {
                         let data = drng.bytes(*size);
                         sim.net.devs[0].mailbox.od.insert((idx, 1), data.clone());
                         // something is already sitting in the device's out-mailbox
-                        let stale = drng.bytes((rs as usize).min(24));
-                        sim.net.devs[0].mailbox.queue.push_back(stale);
+                        // ... and sometimes more messages are queued behind it (1..3 stale messages in all)
+                        let n_stale = 1 + drng.usize_below(3);
+                        for _ in 0..n_stale {
+                            let stale = drng.bytes((rs as usize).min(24));
+                            sim.net.devs[0].mailbox.queue.push_back(stale);
+                        }
                         sim.net.devs[0].mailbox_fill_if_ready();
                         let r: R = read_n!(sim, sd, idx, 1u8, *size, [1, 4, 9, 40]);
                         match r {
